@@ -43,6 +43,17 @@ class Hooks(W.Hooks):
             if r.view_of:
                 anc |= {r.view_of[0]} | self.lineage.get(r.view_of[0], set())
             self.lineage[r.id] = anc
+        if si.kind in ("derive", "construct") and si.exc is None:
+            # "operations that return a new object": the result must not be one of the objects that already existed
+            for r in si.results:
+                for e in world.entries:
+                    if e.id in pre and e is not r and e.obj is r.obj:
+                        return ctx.fail(f"{si.kind}/{si.op}/result-is-an-existing-object",
+                                        f"step {step}: the result of {si.op} is the very object held as entry {e.id} (origin {e.origin}); writes through either handle reach both")
+                    if e.id in pre and e is not r and e.typ == "table" and r.typ == "table" and \
+                            any(c1 is c2 for c1 in e.obj.cols() for c2 in r.obj.cols()):
+                        return ctx.fail(f"{si.kind}/{si.op}/result-shares-column-objects",
+                                        f"step {step}: the result of {si.op} holds a column object of entry {e.id}")
         allowed = set(si.may_change) if si.kind in ("write", "rename") else set()
         if si.kind in ("write", "rename"):
             tgt = world.by_id(si.info.get("target"))
